@@ -33,7 +33,8 @@ case "$id" in
   C18) build "$B/cabi"; exec "$B/cabi" --prop "$id" --tier "$tier" --deadline "$DL" ;;
   C19) build "$B/copymove_asan"; exec "$B/copymove_asan" --prop "$id" --tier "$tier" --deadline "$DL" 2> "$B/asan_$id.log" ;;
   C20) build "$B/reject"; exec "$B/reject" --prop "$id" --tier "$tier" --deadline "$DL" ;;
-  C17) build "$B/search_asan" "$B/multidim_asan" "$B/mapped_asan" "$B/dynamic_asan" "$B/cabi_asan" "$B/copymove_asan"; exec python3 scripts/check_c17.py "$tier" "$DL" "$B" "$VERIF_ROOT" ;;
+  C17) [ "$tier" = quick ] && DL=${VERIF_DEADLINE:-240}   # six sanitizer engines in a row
+       build "$B/search_asan" "$B/multidim_asan" "$B/mapped_asan" "$B/dynamic_asan" "$B/cabi_asan" "$B/copymove_asan"; exec python3 scripts/check_c17.py "$tier" "$DL" "$B" "$VERIF_ROOT" ;;
   C16) build "$B/conc_mc" "$B/conc_tsan"; exec "$B/conc_mc" --prop "$id" --tier "$tier" --deadline "$DL" --tsan-bin "$(cd "$B" && pwd)/conc_tsan" ;;
   *) echo "unknown property $id"; exit 2 ;;
 esac
